@@ -339,7 +339,9 @@ func StandardVariants(nPieces, nDir int, rng *rand.Rand, budget int, exhaustiveM
 		// pending reached disk, everything did), the rest from the torn ones
 		var forced, rest []Variant
 		for _, v := range vs {
-			if v.Kill || v.Name == "dirall/none/full=false" || v.Name == "dirall/all/full=true" {
+			if v.Kill || v.Name == "dirall/none/full=false" || v.Name == "dirall/all/full=true" ||
+				v.Name == "dirall/drop:0/full=true" || v.Name == fmt.Sprintf("dirall/prefix:%d/full=true", nPieces-1) ||
+				v.Name == fmt.Sprintf("dirall/only:%d/full=true", nPieces-1) || v.Name == "dirall/suffix-half/full=true" {
 				forced = append(forced, v)
 			} else {
 				rest = append(rest, v)
